@@ -58,6 +58,27 @@ def seeded():
     out.append(f"Own-property check reports {caught} of {total} seeded changes on the final tree.")
     return "\n".join(out)
 
+def preserving():
+    res = json.load(open(V + '/preserving/results.json'))
+    out = ["| refactoring | files | what was changed (author's summary, shortened) | checks run | outcome |", "|---|---|---|---|---|"]
+    silent = total = 0
+    for key in sorted(res):
+        pid, x = key.split('/')
+        m = json.load(open(f'{V}/preserving/{pid}/{x}/meta.json'))
+        r = res[key]
+        total += 1
+        bad = {k: v for k, v in r.items() if isinstance(v, dict) and v.get('exit') != 0}
+        props = ", ".join(sorted(k for k, v in r.items() if isinstance(v, dict)))
+        if 'error' in r: outcome = r['error']
+        elif not bad: outcome = 'silent'; silent += 1
+        else: outcome = "; ".join(f"**{k}: exit {v['exit']}** " + (v.get('report', '')[:160].replace('|', '/')) for k, v in sorted(bad.items()))
+        files = ", ".join(os.path.basename(f) for f in (m.get('files') or []))
+        summ = (m.get('summary') or '').replace('|', '/').replace('\n', ' ')
+        out.append(f"| {key} | {files} | {summ[:220]} | {props} | {outcome} |")
+    out.append("")
+    out.append(f"{silent} of {total} refactorings leave every check that was run silent on the final tree.")
+    return "\n".join(out)
+
 if __name__ == '__main__':
     import sys
     which = sys.argv[1] if len(sys.argv) > 1 else 'all'
@@ -65,3 +86,4 @@ if __name__ == '__main__':
     if which in ('totals', 'all'): print(totals()); print()
     if which in ('findings', 'all'): print(findings()); print()
     if which in ('seeded', 'all'): print(seeded()); print()
+    if which in ('preserving', 'all'): print(preserving()); print()
